@@ -385,7 +385,15 @@ class MergeEngine:
     @staticmethod
     def get_remove_cset(engine, csets):
         """Generate the cset of what files shall be removed from the livefs."""
-        return csets["old_cset"].difference(csets["install"])
+        remove = csets["old_cset"].difference(csets["install"])
+        # an old entry recorded through a directory that is a symlink on the
+        # livefs (usr/lib -> lib64) may be the very path the new package
+        # installs under the real directory; compare where entries really live.
+        resolve = livefs._realpath_dir()
+        installed = {resolve(x.location) for x in csets["install"]}
+        if same := [x for x in remove if resolve(x.location) in installed]:
+            remove = remove.difference(same)
+        return remove
 
     @staticmethod
     def get_replace_cset(engine, csets):
